@@ -81,9 +81,9 @@ def command_pass(ctx):
         ctx.violation('server.commands', 'session with command events differs from the reference: ' + srv.script_line(cases[k])[:300],
                       {'harness_line': srv.script_line(cases[k]), 'impl': impl[k], 'model': both[k][0], 'spec': both[k][1]}, no_failing_input=nfi)
     cut = sum(1 for c, o in zip(cases, norm) if o[2] == 'Shutdown' and '@block' in c[3])
-    ok = ends.get('Shutdown', 0) >= 10 and ends.get('open', 0) >= 10 and ends.get('blocked', 0) >= 3 and cut >= 5
+    ok = ends.get('Shutdown', 0) >= 10 and ends.get('open', 0) >= 10 and ends.get('blocked', 0) >= 3 and cut >= 5 and ends.get('Io', 0) >= 5
     ctx.oblige('command-scripts-reach-expected-classes', ok, f'{ends} shutdown-after-block={cut}')
-    return {'command-scripts': len(cases), 'command-scripts:ended-Shutdown': ends.get('Shutdown', 0), 'command-scripts:left-blocked': ends.get('blocked', 0),
+    return {'command-scripts': len(cases), 'command-scripts:ended-Shutdown': ends.get('Shutdown', 0), 'command-scripts:left-blocked': ends.get('blocked', 0), 'command-scripts:ended-by-write-error': ends.get('Io', 0),
             'command-scripts:shutdown-in-a-script-with-blocked-writes': cut}
 
 
